@@ -11,7 +11,7 @@
 //   end     returned status / iter, final arguments, radius observed after the run
 // The harness never judges a result.  All numbers are logged exactly (common.hpp).
 //
-// usage: optim --tier quick|thorough --seed S --part P [--group G] --out trace.ndjson
+// usage: optim --tier quick|thorough --seed S [--groups N] [--group G] --out trace.ndjson
 //   VH_PART (compile time, 0..3) selects the problem families compiled into this executable.
 
 #include <Eigen/Core>
